@@ -25,6 +25,13 @@ PARTIALS = {
 }
 
 
+# error messages of the parser sites guarded by `env.mode == Mode.STRICT` (deliberate leniency)
+LENIENT_MESSAGES = [
+    "expected a dot or bracket notation", "expected an identifier, found", "expected a comma separated list of arguments",
+    "expected 'reversed', 'offset' or 'limit', found",
+]
+
+
 def _cfg(case, mode: str) -> dict:
     cfg = dict(case["cfg"])
     cfg["mode"] = mode
@@ -108,6 +115,12 @@ def evaluate(case) -> Verdict:
             f"{len(cw)} errors were suppressed in WARN mode but {len(ww)} warnings were emitted ({[c.__name__ for c in cw][:5]})",
         )
     strict_ok = ps[0] == "ok" and rs is not None and rs[0] == "ok"
+    if ps[0] == "liquid" and pw[0] == "ok" and rw is not None and rw[0] == "ok" and not ww:
+        # STRICT refuses the source, WARN accepts it silently: only legitimate at the sites
+        # where the parser is deliberately lenient outside strict mode
+        msg = str(ps[2]).splitlines()[0] if len(ps) > 2 else ""
+        if not any(m in msg for m in LENIENT_MESSAGES):
+            v.fail("warn-silent-parse-error", f"STRICT raised {ps[1]}: {msg!r} but WARN parsed and rendered without any warning: {src!r:.300}")
     if ps[0] == "ok" and rs is not None and rs[0] == "liquid" and pw[0] == "ok" and rw is not None and rw[0] == "ok":
         # a render-time error in strict mode happens identically in warn mode and must be reported
         if not ww:
@@ -155,6 +168,8 @@ def cases(draw):
     r = draw(st.randoms(use_true_random=False))
     cfg = envs.gen_cfg(r)
     cfg.pop("mode", None)
+    if r.random() < 0.15:
+        cfg["limits"] = {"block_nesting_limit": r.choice([0, 1, 2])}
     data = gd.DataGen(r, hostile=r.random() < 0.2).data()
     data["pname"] = r.choice(["p", "q", "missing"])
     m = gm.Mut(r)
@@ -169,7 +184,33 @@ def cases(draw):
     return {"cfg": cfg, "src": src, "data": data, "mutations": ["soup"]}
 
 
+# a malformed expression placed in exactly one tag position of an otherwise valid template
+HOLES = [
+    "{% if «X» %}a{% else %}b{% endif %}z", "{% if false %}a{% elsif «X» %}b{% else %}c{% endif %}z",
+    "{% if false %}a{% elsif false %}b{% elsif «X» %}c{% endif %}z", "{% unless «X» %}a{% endunless %}z",
+    "{% unless true %}a{% elsif «X» %}b{% else %}c{% endunless %}z", "{% case «X» %}{% when 1 %}a{% endcase %}z",
+    "{% case 1 %}{% when «X» %}a{% else %}b{% endcase %}z", "{% for i in «X» %}a{% endfor %}z", "{% for «X» %}a{% endfor %}z",
+    "{% for i in items limit: «X» %}a{% endfor %}z", "{% tablerow i in «X» %}a{% endtablerow %}z",
+    "{% assign v = «X» %}z", "{% assign «X» %}z", "{% echo «X» %}z", "{{ «X» }}z", "{% capture «X» %}a{% endcapture %}z",
+    "{% cycle «X» %}z", "{% include «X» %}z", "{% render «X» %}z", "{% render 'p', x: «X» %}z", "{% include 'p' with «X» %}z",
+    "{% increment «X» %}z", "{% with a: «X» %}a{% endwith %}z", "{% macro m «X» %}a{% endmacro %}z", "{% call m «X» %}z",
+    "{% liquid\nif «X»\necho 'a'\nendif\n%}z", "{% liquid\nassign v = «X»\necho v\n%}z", "{% liquid\nfor i in «X»\necho i\nendfor\n%}z",
+    "{% for i in items %}{% if «X» %}a{% endif %}{% endfor %}z", "{% capture c %}{% if true %}{% elsif «X» %}{% endif %}{% endcapture %}z",
+    "{% translate x: «X» %}a{% endtranslate %}z", "{% block «X» %}a{% endblock %}z", "{{ a | append: «X» }}z", "{{ a | «X» }}z",
+    "{{ 'a' if «X» else 'b' }}z", "{% ifchanged «X» %}a{% endifchanged %}z",
+]
+BAD_EXPRS = ["1 ~= 2", "a ==", "== a", "a b c", "", "(1..", "a |", "1 2", "a,,b", "a[", "'unclosed", "a.", "&", "a == == b", "a: b: c", "not", "(a", ")"]
+
+
 def campaign(ctx: core.Ctx, tier: str, shard: int, nshards: int) -> None:
+    idx = 0
+    base_cfg = {"undefined": "default", "autoescape": False, "strict_filters": True, "extra": True, "loader": "dict", "ns": False,
+                "flags": {"ternary_expressions": True, "logical_not_operator": True, "logical_parentheses": True}}
+    for hole in HOLES:
+        for bad in BAD_EXPRS:
+            idx += 1
+            if idx % nshards == shard:
+                ctx.run({"cfg": base_cfg, "src": hole.replace("«X»", bad), "data": {"items": [1, 2], "a": "x"}, "mutations": ["hole"]})
     total = 4000 if tier == "quick" else 80000
     core.drive(cases(), ctx.run, n=max(1, total // nshards), seed=core.sub_seed(ctx.seed, shard))
 
